@@ -37,16 +37,34 @@ def acceptAndNextCallOld (maxEntries : Int) (s : St) : G St := do
   let s4 := setLH { s3 with hpos := -1, cpos := -1 } (-1) {}
   save s4
 
-/-- the commands of a user who walks through the history, types on the line being typed, and accepts:
+/-- the commands of a user who walks through the history, searches it, types on the line being typed, and accepts:
 each is the body of the command followed by the `Save` of `Shell.run` -/
 inductive HOp where
-  | up | down | type (c : Nat) | accept
+  | up | down | type (c : Nat) | accept | search (fwd regex : Bool)
 deriving Repr, DecidableEq
 
 def typeChar (s : St) (c : Nat) : G St := do
   let cur := checkAppend s.line s.cur
   let l ← insert s.line cur.pos [c]
   pure { s with line := l, cur := { cur with pos := cur.pos + 1 } }
+
+/-- `Sources.getLine(nil, nil)`: the line a history search matches against when the command gives none —
+the last saved state of the line being typed (saved first when the position is on it) and its cursor -/
+def searchLine (s : St) : G (St × List Nat × Int) := do
+  let s ← (if s.hpos = -1 then do
+      let t ← save { s with skip := false }
+      pure { t with skip := s.skip }
+    else pure s)
+  match (getLH s (-1)).items.getLast? with
+  | some u => pure (s, u.line, (curSet u.line ⟨0, -1⟩ u.pos).pos)
+  | none => pure (s, [], 0)
+
+/-- the body of history-search-backward/forward (`regex = false`) and of the substring searches (`true`):
+`History.Save()`, then `InsertMatch(nil, nil, usePos = true, fwd, regex)` -/
+def searchCmd (s : St) (fwd regex : Bool) : G St := do
+  let s ← save s
+  let (s, ml, mp) ← searchLine s
+  pure (insertMatch s ml mp true fwd regex)
 
 /-- one command; typing ON A HISTORY LINE (an edit of that line, which the library keeps with the line) is
 outside what `runUnedited` follows: it stops there -/
@@ -56,6 +74,7 @@ def stepUnedited (m : Int) (s : St) : HOp → G St
   | .type c => if s.hpos ≠ -1 then .error (.beyond "a history line is edited") else do
       let s ← typeChar s c; save s
   | .accept => do let s ← acceptAndNextCall m s; save s
+  | .search fwd regex => do let s ← searchCmd s fwd regex; save s
 
 def runUnedited (m : Int) : St → List HOp → G St
   | s, [] => pure s
